@@ -290,6 +290,108 @@ def _anchor_point(pt):
 # ---------------------------------------------------------------- sub-checks
 
 
+# ---------------------------------------------------------------- instance / attribute histories
+
+H_FREQS = (20.0, 160.0, 440.0, 1000.0, 5000.0)
+
+
+def _mk(kind, params):
+    from pydrobert.speech import scales
+
+    return {"linear": scales.LinearScaling, "octave": scales.OctaveScaling,
+            "mel": scales.MelScaling, "bark": scales.BarkScaling}[kind](*params)
+
+
+def _formula(kind, params):
+    """closed forms of the two parameterised scales (mel/Bark: the published formulas)"""
+    if kind == "linear":
+        low, slope = (params + [1.0])[:2] if len(params) < 2 else params
+        return (lambda f: (f - low) * slope), (lambda z: z / slope + low)
+    if kind == "octave":
+        low = params[0]
+        return (lambda f: math.log2(f / low)), (lambda z: (2.0 ** z) * low)
+    if kind == "mel":
+        return ref.mel_from_hz, None
+    return ref.bark_from_hz, None
+
+
+def _history_point(pt):
+    """ops on several scale objects living in ONE process: ("new", name, kind, params),
+    ("h2s", name, f), ("s2h", name, z), ("set", name, attr, value).  After every call the value is
+    compared with the closed form for the object's CURRENT parameters: nothing computed for one
+    instance (or for earlier parameter values of the same instance) may leak into another."""
+    objs, cur = {}, {}
+    viol = []
+    evals = 0
+    for op in pt:
+        if op[0] == "new":
+            r = computers.call(_mk, op[2], list(op[3]))
+            if r[0] != "ok":
+                return core.result([], nontrivial=False, obs="unconstructible", skipped=True)
+            objs[op[1]] = r[1]
+            cur[op[1]] = [op[2], list(op[3])]
+            if op[2] == "linear" and len(cur[op[1]][1]) == 1:
+                cur[op[1]][1].append(1.0)
+            continue
+        if op[0] == "set":
+            setattr(objs[op[1]], op[2], op[3])
+            kind, params = cur[op[1]]
+            idx = {"low_hz": 0, "slope_hz": 1}[op[2]]
+            params[idx] = op[3]
+            continue
+        kind, params = cur[op[1]]
+        fwd, inv = _formula(kind, params)
+        evals += 1
+        if op[0] == "h2s":
+            r = computers.call(objs[op[1]].hertz_to_scale, op[2])
+            want = fwd(op[2])
+        else:
+            if inv is None:
+                continue
+            r = computers.call(objs[op[1]].scale_to_hertz, op[2])
+            want = inv(op[2])
+        tol = 2e-5 if kind == "mel" else 1e-9
+        ok = r[0] == "ok" and abs(float(r[1]) - want) <= tol * max(1.0, abs(want))
+        if not ok:
+            viol.append(core.violation(
+                dict(what="history", scale=kind, call=op[0],
+                     after_attribute_change=any(o[0] == "set" and o[1] == op[1] for o in pt[:pt.index(op)]),
+                     several_instances=sum(1 for o in pt if o[0] == "new") > 1),
+                "history %r: %s(%r) on %s%r gave %s, closed form %r" % (
+                    pt, op[0], op[2], kind, tuple(params), r[1] if r[0] == "ok" else r[1:], want),
+                dict(ops=pt)))
+            break
+    return core.result(viol, evals=evals, nontrivial_count=evals, obs=[len(viol) == 0, pt[0][2]],
+                       sample=dict(ops=pt))
+
+
+def _history_points(tier):
+    pts = []
+    variants = {"linear": [[0.0, 1.0], [20.0, 2.0], [20.0, 0.25], [-5.0, 3.0]],
+                "octave": [[20.0], [440.0], [1.0]], "mel": [[]], "bark": [[]]}
+    # two instances of one class with different parameters, same frequencies, both query orders
+    for kind, vs in variants.items():
+        for pa in vs:
+            for pb in vs:
+                if pa == pb and len(vs) > 1:
+                    continue
+                for f in H_FREQS if tier == "thorough" else H_FREQS[1:4]:
+                    z = 3.0
+                    pts.append([["new", "A", kind, pa], ["new", "B", kind, pb],
+                                ["h2s", "A", f], ["h2s", "B", f], ["s2h", "A", z], ["s2h", "B", z],
+                                ["h2s", "A", f]])
+    # attribute re-assignment on a used object (documented public attributes)
+    for kind, attr, vals in (("linear", "slope_hz", [2.0, 0.25, 1.0]), ("linear", "low_hz", [0.0, 20.0, -5.0]),
+                             ("octave", "low_hz", [20.0, 440.0, 1.0])):
+        base = {"linear": [20.0, 2.0], "octave": [20.0]}[kind]
+        for v in vals:
+            for first in ("h2s", "s2h"):
+                pts.append([["new", "A", kind, base], [first, "A", 440.0 if first == "h2s" else 3.0],
+                            ["set", "A", attr, v], ["h2s", "A", 440.0], ["s2h", "A", 3.0],
+                            ["h2s", "A", 160.0]])
+    return pts
+
+
 def subchecks(tier, seed):
     step = 0.25 if tier == "quick" else 0.0625
     chunk = 20000 if tier == "quick" else 40000
@@ -322,6 +424,13 @@ def subchecks(tier, seed):
             "directions: round trip, published formula, no drop beyond 8 ulps between adjacent floats, "
             "total variation across the neighbourhood < 1e-9 (continuity); the neighbourhood must "
             "straddle the break", replay=_breaks_replay, serial=True),
+        core.SubCheck(
+            "histories", _history_points(tier), _history_point,
+            "objects living in one process: two instances of a class with different parameters queried at "
+            "the same frequencies (both orders), and documented public attributes (low_hz, slope_hz) "
+            "re-assigned on an object that has already been used; every value vs the closed form for the "
+            "object's current parameters",
+            replay=lambda case: _history_point(case["ops"])),
         core.SubCheck(
             "anchors", anchors, _anchor_point,
             "OctaveScaling(low_hz <= 0) raises ValueError and positive low_hz is accepted; "
